@@ -77,7 +77,8 @@ def strip(c):
 
 class C12(Prop):
     id = "C12"
-    coq_targets = ["theories/Properties/C12.vo"]
+    coq_targets = ["theories/Properties/C12.vo", "theories/Properties/Admission.vo"]
+    theorem_prefixes = ("C12_", "ADM_")
     check_vo = "theories/Check/C12Check.vo"
     check_module = "Moc.Check.C12Check"
     case_imports = ["Moc.Gate"]
